@@ -223,7 +223,7 @@ block_case = st.fixed_dictionaries({"kpat": st.sampled_from([0, 0, 0, 1, 2]), "s
                                     "nblocks": st.one_of(st.integers(0, 40), st.sampled_from([1, 3, 4, 5, 7, 8, 9, 15, 16, 17, 31, 32, 33, 64, 257]))})
 
 
-@P.sub("sm4_block", block_case, quick=4000, thorough=80000, variants=SM4VAR)
+@P.sub("sm4_block", block_case, quick=4000, thorough=60000, variants=SM4VAR)
 def sm4_block(case, ctx):
     """sm4_set_encrypt/decrypt_key, sm4_encrypt, sm4_encrypt_blocks (SIMD widths + tails), block_cipher_* vs OpenSSL SM4-ECB; in place"""
     l = lib(ctx.variant)
@@ -270,7 +270,7 @@ blocks_case = st.fixed_dictionaries({"kpat": st.sampled_from([0, 0, 0, 1, 2]), "
                                      "nblocks": st.one_of(st.integers(0, 40), st.sampled_from([1, 3, 4, 5, 7, 8, 9, 15, 16, 17, 31, 32, 33, 64, 257]))})
 
 
-@P.sub("sm4_blocks_modes", blocks_case, quick=4000, thorough=80000, variants=SM4VAR)
+@P.sub("sm4_blocks_modes", blocks_case, quick=4000, thorough=60000, variants=SM4VAR)
 def sm4_blocks_modes(case, ctx):
     """sm4_cbc_encrypt/decrypt_blocks, sm4_ctr_encrypt_blocks, sm4_ctr32_encrypt_blocks: output and updated iv/counter vs reference; in place"""
     l = lib(ctx.variant)
@@ -321,7 +321,7 @@ mode_case = st.fixed_dictionaries({"kpat": st.sampled_from([0, 0, 0, 1, 2]), "se
                                    "ckind": st.integers(0, 5), "n": len_strategy(), "cuts": cut_strategy, "dcuts": cut_strategy})
 
 
-@P.sub("cbc", mode_case, quick=6000, thorough=100000, variants=SM4VAR)
+@P.sub("cbc", mode_case, quick=6000, thorough=80000, variants=SM4VAR)
 def cbc(case, ctx):
     """sm4_cbc_padding_encrypt/decrypt and sm4_cbc_{encrypt,decrypt}_{init,update,finish} vs OpenSSL SM4-CBC (PKCS#7); sizes; in place"""
     l = lib(ctx.variant)
@@ -371,7 +371,7 @@ def cbc(case, ctx):
         same(ctx, got, exp, "sm4_cbc_encrypt_update in place over aligned chunks %s" % aparts, "cbc/enc/stream-inplace")
 
 
-@P.sub("ctr", mode_case, quick=6000, thorough=100000, variants=SM4VAR)
+@P.sub("ctr", mode_case, quick=6000, thorough=80000, variants=SM4VAR)
 def ctr(case, ctx):
     """sm4_ctr_encrypt / sm4_ctr32_encrypt and their init/update/finish vs the 128-bit / 32-bit counter reference incl. carries"""
     l = lib(ctx.variant)
@@ -415,7 +415,7 @@ def ctr(case, ctx):
         same(ctx, got, MD.ctr_crypt("sm4", key, c0, data)[0], "sm4_ctr_encrypt_update in place over aligned chunks %s" % aparts, "ctr/stream-inplace")
 
 
-@P.sub("ecb_ofb", mode_case, quick=6000, thorough=100000, variants=SM4VAR)
+@P.sub("ecb_ofb", mode_case, quick=6000, thorough=80000, variants=SM4VAR)
 def ecb_ofb(case, ctx):
     """sm4_ecb_* streaming (whole blocks in total) vs OpenSSL SM4-ECB; sm4_ofb_encrypt and sm4_ofb_* streaming vs OpenSSL SM4-OFB"""
     l = lib(ctx.variant)
@@ -470,7 +470,7 @@ cfb_case = st.fixed_dictionaries({"kpat": st.sampled_from([0, 0, 0, 1, 2]), "see
                                   "dcuts": cut_strategy})
 
 
-@P.sub("cfb", cfb_case, quick=6000, thorough=100000, variants=SM4VAR)
+@P.sub("cfb", cfb_case, quick=6000, thorough=80000, variants=SM4VAR)
 def cfb(case, ctx):
     """sm4_cfb_encrypt/decrypt and sm4_cfb_* streaming for every segment size 1..16 vs the CFB-s reference; sizes; in place"""
     l = lib(ctx.variant)
@@ -521,7 +521,7 @@ xts_case = st.fixed_dictionaries({"kpat": st.sampled_from([0, 0, 0, 1, 2]), "see
                                   "units": st.integers(0, 6), "cuts": cut_strategy, "dcuts": cut_strategy})
 
 
-@P.sub("xts", xts_case, quick=6000, thorough=100000, variants=SM4VAR)
+@P.sub("xts", xts_case, quick=6000, thorough=80000, variants=SM4VAR)
 def xts(case, ctx):
     """sm4_xts_encrypt/decrypt (ciphertext stealing) and sm4_xts_* streaming over data units vs XTS in GB/T 17964 bit order"""
     l = lib(ctx.variant)
@@ -572,7 +572,7 @@ mac_case = st.fixed_dictionaries({"kpat": st.sampled_from([0, 0, 0, 1, 2]), "see
                                   "n": len_strategy().map(lambda v: max(v, 1)), "cuts": cut_strategy})
 
 
-@P.sub("cbc_mac", mac_case, quick=3000, thorough=60000, variants=SM4VAR)
+@P.sub("cbc_mac", mac_case, quick=3000, thorough=40000, variants=SM4VAR)
 def cbc_mac(case, ctx):
     """sm4_cbc_mac_init/update/finish over a generated chunking vs CBC-MAC (zero IV, zero-padded last block), non-empty messages"""
     l = lib(ctx.variant)
@@ -606,7 +606,7 @@ gcm_case = st.fixed_dictionaries({"kpat": st.sampled_from([0, 0, 0, 1, 2]), "see
                                   "j0wrap": st.integers(0, 7)})
 
 
-@P.sub("gcm", gcm_case, quick=6000, thorough=100000, variants=SM4VAR)
+@P.sub("gcm", gcm_case, quick=6000, thorough=80000, variants=SM4VAR)
 def gcm(case, ctx):
     """sm4_gcm_encrypt/decrypt and sm4_gcm_* streaming (IV 1..64, tag 12..16) vs GCM reference (Python GHASH over OpenSSL SM4); sizes; in place"""
     l = lib(ctx.variant)
@@ -680,7 +680,7 @@ ccm_case = st.fixed_dictionaries({"kpat": st.sampled_from([0, 0, 0, 1, 2]), "see
                                   "n": len_strategy(1024, 4096)})
 
 
-@P.sub("ccm", ccm_case, quick=6000, thorough=100000, variants=SM4VAR)
+@P.sub("ccm", ccm_case, quick=6000, thorough=80000, variants=SM4VAR)
 def ccm(case, ctx):
     """sm4_ccm_encrypt/decrypt for every nonce length 7..13 and tag length 4..16 vs CCM (SP 800-38C / RFC 3610) reference; in place"""
     l = lib(ctx.variant)
@@ -740,7 +740,7 @@ aes_case = st.fixed_dictionaries({"klen": st.sampled_from([16, 24, 32]), "kpat":
                                   "j0wrap": st.integers(0, 7)})
 
 
-@P.sub("aes", aes_case, quick=6000, thorough=100000, variants=GENVAR)
+@P.sub("aes", aes_case, quick=6000, thorough=80000, variants=GENVAR)
 def aes(case, ctx):
     """aes_encrypt/decrypt (128/192/256), aes_cbc_*, aes_cbc_padding_*, aes_ctr_encrypt, aes_gcm_* vs OpenSSL; round trips; in place"""
     l = lib(ctx.variant)
@@ -850,7 +850,7 @@ zuc_case = st.fixed_dictionaries({"kpat": st.sampled_from([0, 0, 0, 1, 2]), "see
                                   "macbits": st.sampled_from([32, 64, 128])})
 
 
-@P.sub("zuc", zuc_case, quick=4000, thorough=80000, variants=GENVAR)
+@P.sub("zuc", zuc_case, quick=4000, thorough=60000, variants=GENVAR)
 def zuc(case, ctx):
     """ZUC-128/256 key stream, zuc_encrypt (+streaming), 128-EEA3, 128-EIA3, zuc_mac_* and zuc256_mac_* (chunked, bit lengths) vs the Python model"""
     l = lib(ctx.variant)
@@ -954,7 +954,7 @@ chacha_case = st.fixed_dictionaries({"kpat": st.sampled_from([0, 0, 0, 1, 2]), "
                                      "n1": st.integers(0, 20), "n2": st.integers(0, 6)})
 
 
-@P.sub("chacha20", chacha_case, quick=3000, thorough=60000, variants=GENVAR)
+@P.sub("chacha20", chacha_case, quick=3000, thorough=40000, variants=GENVAR)
 def chacha20(case, ctx):
     """chacha20_init + chacha20_generate_keystream (two consecutive calls) vs OpenSSL ChaCha20 / RFC 8439 block function"""
     l = lib(ctx.variant)
